@@ -293,6 +293,32 @@ class ExecutionState:
         with self._operations_lock:
             self.operations.update({op.operation_id: op for op in all_operations})
 
+    def _completed_operation_ids(self) -> set[str]:
+        """Ids of the operations (other than EXECUTION) that have reached a terminal status."""
+        return {
+            op_id
+            for op_id, op in self.operations.items()
+            if op.operation_type != OperationType.EXECUTION
+            and op.status
+            in {
+                OperationStatus.SUCCEEDED,
+                OperationStatus.FAILED,
+                OperationStatus.CANCELLED,
+                OperationStatus.STOPPED,
+                OperationStatus.TIMED_OUT,
+            }
+        }
+
+    def start_replay_if_history_has_completed_operations(self) -> None:
+        """Enter REPLAY status if the loaded history holds at least one completed operation.
+
+        Called once, after the whole history (all pages) has been loaded. Without a completed
+        operation there is no code whose log output must be suppressed.
+        """
+        with self._replay_status_lock:
+            if self._completed_operation_ids():
+                self._replay_status = ReplayStatus.REPLAY
+
     def track_replay(self, operation_id: str) -> None:
         """Check if operation exists with completed status; if not, transition to NEW status.
 
@@ -307,19 +333,7 @@ class ExecutionState:
         with self._replay_status_lock:
             if self._replay_status == ReplayStatus.REPLAY:
                 self._visited_operations.add(operation_id)
-                completed_ops = {
-                    op_id
-                    for op_id, op in self.operations.items()
-                    if op.operation_type != OperationType.EXECUTION
-                    and op.status
-                    in {
-                        OperationStatus.SUCCEEDED,
-                        OperationStatus.FAILED,
-                        OperationStatus.CANCELLED,
-                        OperationStatus.STOPPED,
-                        OperationStatus.TIMED_OUT,
-                    }
-                }
+                completed_ops = self._completed_operation_ids()
                 if completed_ops.issubset(self._visited_operations):
                     logger.debug(
                         "Transitioning from REPLAY to NEW status at operation %s",
